@@ -10,6 +10,7 @@ import (
 	"errors"
 	"io"
 	"io/fs"
+	"net"
 	"os"
 	"time"
 
@@ -58,6 +59,7 @@ func (l *Ledger) Mutations() int {
 // File is a fixed byte string content[0,Size) (cell i is verifrt.ByteAt(Label, i)) with a cursor.
 type File struct {
 	Label  string // name of the uninterpreted content array
+	Data   []byte // when set: concrete content (Size must equal len(Data))
 	Path   string
 	Size   int64
 	Pos    int64
@@ -116,9 +118,17 @@ func (f *File) Read(p []byte) (int, error) {
 		verifrt.Assume(1 <= m && m < n)
 		n = m
 	}
-	verifrt.FillFromArray(p[:n], f.Label, f.Pos)
+	f.fill(p[:n], f.Pos)
 	f.Pos += n
 	return int(n), nil
+}
+
+func (f *File) fill(p []byte, pos int64) {
+	if f.Data != nil {
+		copy(p, f.Data[pos:])
+		return
+	}
+	verifrt.FillFromArray(p, f.Label, pos)
 }
 
 func (f *File) ReadAt(p []byte, off int64) (int, error) {
@@ -137,7 +147,7 @@ func (f *File) ReadAt(p []byte, off int64) (int, error) {
 		n = f.Size - off
 		short = true
 	}
-	verifrt.FillFromArray(p[:n], f.Label, off)
+	f.fill(p[:n], off)
 	if short {
 		return int(n), io.EOF
 	}
@@ -290,9 +300,18 @@ var _ afero.Fs = (*Fs)(nil)
 
 func (s *Fs) fault(what string) bool { return s.Faults && verifrt.Bool("fsfault." + what) }
 
+func trimSlash(p string) string {
+	for len(p) > 0 && p[0] == '/' {
+		p = p[1:]
+	}
+	return p
+}
+
+// find looks a path up; a leading slash is irrelevant (the real base-path fs joins names to its root)
 func (s *Fs) find(path string) *Entry {
+	path = trimSlash(path)
 	for _, e := range s.Entries {
-		if e.Path == path {
+		if trimSlash(e.Path) == path {
 			return e
 		}
 	}
@@ -404,5 +423,80 @@ func (s *Fs) Chown(name string, uid, gid int) error {
 }
 func (s *Fs) Chtimes(name string, atime time.Time, mtime time.Time) error {
 	s.note("chmod", name, 0)
+	return nil
+}
+
+// Conn is a connection whose input is a fixed byte string; everything written is collected in Out.
+type Conn struct {
+	In          []byte
+	Pos         int
+	Out         []byte
+	Closes      int
+	ShortBudget int  // how many reads may deliver fewer bytes than available (segmentation)
+	WriteFaults bool // writes may fail
+	EndErr      bool // after the input: an error (reset/timeout) instead of EOF
+	Deadlines   []time.Time
+	ReadsAfter  []int // number of deadlines set when each Read was issued
+	DeadlineErr bool
+	Remote      net.Addr
+}
+
+var _ net.Conn = (*Conn)(nil)
+
+func (c *Conn) Read(p []byte) (int, error) {
+	c.ReadsAfter = append(c.ReadsAfter, len(c.Deadlines))
+	if len(p) == 0 {
+		return 0, nil
+	}
+	rem := len(c.In) - c.Pos
+	if rem <= 0 {
+		if c.EndErr {
+			return 0, ErrIO
+		}
+		return 0, io.EOF
+	}
+	n := len(p)
+	if rem < n {
+		n = rem
+	}
+	if c.ShortBudget > 0 && n > 1 && verifrt.Bool("conn.short") {
+		c.ShortBudget--
+		m := verifrt.Int("conn.shortlen")
+		verifrt.Assume(m >= 1)
+		verifrt.Assume(m < n)
+		n = m
+	}
+	copy(p[:n], c.In[c.Pos:])
+	c.Pos += n
+	return n, nil
+}
+
+func (c *Conn) Write(p []byte) (int, error) {
+	if c.WriteFaults && verifrt.Bool("conn.writefault") {
+		return 0, ErrIO
+	}
+	c.Out = append(c.Out, p...)
+	return len(p), nil
+}
+
+func (c *Conn) Close() error {
+	c.Closes++
+	return nil
+}
+
+func (c *Conn) LocalAddr() net.Addr { return &net.TCPAddr{} }
+func (c *Conn) RemoteAddr() net.Addr {
+	if c.Remote != nil {
+		return c.Remote
+	}
+	return &net.TCPAddr{}
+}
+func (c *Conn) SetDeadline(t time.Time) error      { return nil }
+func (c *Conn) SetWriteDeadline(t time.Time) error { return nil }
+func (c *Conn) SetReadDeadline(t time.Time) error {
+	if c.DeadlineErr && verifrt.Bool("conn.deadlinefault") {
+		return ErrIO
+	}
+	c.Deadlines = append(c.Deadlines, t)
 	return nil
 }
